@@ -42,8 +42,8 @@ VFixAB  == [bust |-> "owned", loop |-> "ignored", consume |-> "ignore"]
 VFixA   == [bust |-> "owned", loop |-> "split", consume |-> "ignore"]
 MenuPlain == {NoScript}
 Sc(o, i, j) == [op |-> o, x |-> i, y |-> j]
-MenuC16 == {NoScript} \cup {Sc(o, i, 0) : o \in {"CloneStored", "DropStored"}, i \in Obj}
-MenuC05 == {NoScript} \cup {Sc(o, i, 0) : o \in {"UpgradeWeak", "UpgradeStored"}, i \in Obj}
+MenuC16 == {NoScript} \cup {Sc(o, i, 0) : o \in {"CloneStored", "DropStored", "IncStrongStored"}, i \in Obj}
+MenuC05 == {NoScript} \cup {Sc(o, i, 0) : o \in {"UpgradeWeak", "UpgradeStored", "DowngradeStored"}, i \in Obj}
 MenuC10 == {NoScript} \cup {Sc(o, i, 0) : o \in {"CloneRoot", "DropRoot", "Downgrade", "WeakDrop", "UpgradeWeak", "UpgradeStored", "Take"}, i \in Obj}
                       \cup {Sc(o, i, j) : o \in {"Adopt", "Unadopt"}, i \in Obj, j \in Obj}
 MenuC10Q == {NoScript} \cup {Sc(o, i, 0) : o \in {"CloneRoot", "DropRoot", "UpgradeWeak"}, i \in Obj}
